@@ -9,6 +9,8 @@ def cfg : Cfg :=
     rangeGuard := Gen.C04.rangeGuard
     validNames := Gen.C04.validNames
     noAccessAttrs := Gen.C04.noAccessAttrs
-    reuseAttrs := Gen.C04.reuseAttrs }
+    reuseAttrs := Gen.C04.reuseAttrs
+    goneRefused := Gen.C04.goneRefused
+    popGuarded := Gen.C04.popGuarded }
 
 end Psutil.C04
